@@ -96,7 +96,8 @@ func cmdVerify(args []string) {
 	dumpAll := fs.Bool("dumpall", false, "dump every obligation")
 	timeout := fs.Int("timeout", 10, "seconds per obligation")
 	verbose := fs.Bool("v", false, "")
-	workers := fs.Int("workers", 6, "parallel solver processes")
+	workers := fs.Int("workers", 3, "parallel solver processes")
+	full := fs.Bool("full", false, "use the full solver portfolio (default: light hedge)")
 	fs.Parse(args)
 	t0 := time.Now()
 	P, err := LoadProg(*repo, strings.Split(*pk, ","), "/verif")
@@ -149,6 +150,7 @@ func cmdVerify(args []string) {
 	}
 	all = append(all, lemmaObligations(P, lemmas)...)
 	t1 := time.Now()
+	hedgeLight = !*full
 	dischargeAll(all, *timeout, false, *workers)
 	fail := 0
 	for _, o := range all {
